@@ -1,9 +1,202 @@
-import SynthVerif.Model.Adsr
-import SynthVerif.Model.Lfo
-import SynthVerif.Model.Quantizer
-import SynthVerif.Model.Midi
-import SynthVerif.Model.Glide
-import SynthVerif.Model.Ribbon
+import SynthVerif.Props.C08
+/-!
+# C09 — Quantizer hysteresis: stable inside the window, history-free outside it
+
+* `convert_cases`: a conversion either keeps the cached note (exactly when that note's pitch class is still allowed
+  and `lo < v < hi`, the cached note's bucket widened by the hysteresis) or is **equal** to `convertFresh` — the
+  function a quantizer without history computes (`history_free`: a new quantizer with the same scale).
+* `window_bounds`: `lo` and `hi` are within `2^-19` V of `p/12 − 1/120` and `(p+1)/12 + 1/120`
+  (one tenth of a semitone on each side of the semitone bucket of note `p`).
+* `ramp_monotone`: for a fixed scale, a non-decreasing sequence of inputs in [0, 10] V yields a non-decreasing
+  sequence of notes (every cached note is the history-free note of an earlier, smaller-or-equal input; C08).
+-/
 namespace C09
-theorem placeholder_to_be_replaced : True := trivial
+open F32 Quantizer
+
+/-- the hysteresis test of `convert` -/
+def keeps (q : Quantizer) (v : F32) : Bool :=
+  q.isAllowed (noteNew (q.cached.note % 12)) && inWindow q.cached v
+
+theorem convert_cases (q : Quantizer) (v : F32) :
+    (keeps q v = true → (q.convert v).2 = { q.cached with fraction := sub v q.cached.stairstep } ∧
+        (q.convert v).2.note = q.cached.note) ∧
+    (keeps q v = false → (q.convert v).2 = convertFresh q.allowed v) ∧
+    (q.convert v).1.cached = (q.convert v).2 ∧ (q.convert v).1.allowed = q.allowed := by
+  unfold keeps Quantizer.convert
+  refine ⟨fun h => ?_, fun h => ?_, ?_, ?_⟩
+  · rw [if_pos h]; exact ⟨rfl, rfl⟩
+  · rw [if_neg (by simp [h])]
+  · split <;> rfl
+  · split <;> rfl
+
+/-! ### a quantizer without history -/
+
+theorem lo_init : sub f32Min hysteresis = f32Min := by decide +kernel
+theorem hi_init : add (add f32Min semitoneWidth) hysteresis = f32Min := by decide +kernel
+theorem f32Min_eq : f32Min = .fin f32Min.val false := by decide +kernel
+
+/-- the initial cache admits no input: `lo < v < hi` with `lo = hi = f32::MIN` is unsatisfiable -/
+theorem init_never_in_window (v : F32) : inWindow Quantizer.new.cached v = false := by
+  simp only [inWindow, Quantizer.new, lo_init, hi_init]
+  rw [f32Min_eq]
+  cases v with
+  | nan => simp [lt]
+  | inf s => cases s <;> simp [lt]
+  | fin a na =>
+    simp only [lt, Bool.and_eq_false_iff, decide_eq_false_iff_not]
+    by_cases h : f32Min.val < a
+    · right; exact not_lt.mpr (le_of_lt h)
+    · left; exact h
+
+/-- **history-free**: a quantizer that has never converted anything reports `convertFresh` for every input,
+whatever its scale -/
+theorem history_free (allowed : Nat) (v : F32) :
+    (({ Quantizer.new with allowed := allowed } : Quantizer).convert v).2 = convertFresh allowed v := by
+  have hk : keeps { Quantizer.new with allowed := allowed } v = false := by
+    unfold keeps
+    have := init_never_in_window v
+    simp only [Quantizer.new] at this ⊢
+    rw [this]; simp
+  exact (convert_cases _ v).2.1 hk
+
+/-! ### where the window edges are -/
+
+theorem consts_f32 :
+    hysteresis.isFin = true ∧ semitoneWidth.isFin = true ∧ notesPerOctave = .fin 12 false ∧
+    |hysteresis.val - 1 / 120| ≤ 2 ^ (-30:ℤ) ∧ |semitoneWidth.val - 1 / 12| ≤ 2 ^ (-28:ℤ) := by decide +kernel
+
+/-- `note / 12` as the conversions compute it -/
+theorem stairstep_val (p : ℕ) (hp : p ≤ 255) :
+    (div (ofNat p) notesPerOctave).isFin = true ∧ (div (ofNat p) notesPerOctave).val = rnd ((p:ℚ) / 12) := by
+  obtain ⟨_, _, h12, _, _⟩ := consts_f32
+  obtain ⟨n1, n2⟩ := ofNat_fin p (by omega)
+  rw [h12]
+  have := val_div (x := ofNat p) (y := .fin 12 false) n1 rfl (by simp)
+    (by rw [n2, val_fin, abs_of_nonneg (by positivity)]
+        calc (p:ℚ) / 12 ≤ 255 / 12 := by
+              apply div_le_div_of_nonneg_right _ (by norm_num); exact_mod_cast hp
+          _ ≤ 2 ^ (127:ℤ) := by norm_num)
+  rwa [n2, val_fin] at this
+
+private theorem err16 {x : ℚ} (h : |x| < 16) : |rnd x - x| ≤ 2 ^ (-21:ℤ) := by
+  have := rnd_err (x := x) (k := 4) (by norm_num) (by norm_num; exact h)
+  norm_num at this ⊢; exact this
+
+/-- **window bounds**: for a cached note `p ≤ 131` the hysteresis window is
+`(p/12 − 1/120, (p+1)/12 + 1/120)` up to `2^-19` V at either end -/
+theorem window_bounds (p : ℕ) (hp : p ≤ 131) :
+    let ss := div (ofNat p) notesPerOctave
+    let lo := sub ss hysteresis
+    let hi := add (add ss semitoneWidth) hysteresis
+    lo.isFin = true ∧ hi.isFin = true ∧
+    |lo.val - ((p:ℚ) / 12 - 1 / 120)| ≤ 2 ^ (-19:ℤ) ∧ |hi.val - (((p:ℚ) + 1) / 12 + 1 / 120)| ≤ 2 ^ (-19:ℤ) := by
+  obtain ⟨hf, wf, h12, he, we⟩ := consts_f32
+  obtain ⟨s1, s2⟩ := stairstep_val p (by omega)
+  have hp' : (p:ℚ) ≤ 131 := by exact_mod_cast hp
+  have p0 : (0:ℚ) ≤ p := by positivity
+  have hq : |(p:ℚ) / 12| < 16 := by
+    rw [abs_of_nonneg (by positivity), div_lt_iff₀ (by norm_num)]; linarith
+  have e0 := abs_le.mp (err16 hq)
+  have eh := abs_le.mp he
+  have ew := abs_le.mp we
+  norm_num at eh ew e0
+  set S := rnd ((p:ℚ) / 12) with hS
+  have S0 : -1 ≤ S := by linarith [e0.1, show (0:ℚ) ≤ (p:ℚ) / 12 by positivity]
+  have S1 : S ≤ 12 := by
+    have : (p:ℚ) / 12 ≤ 131 / 12 := div_le_div_of_nonneg_right hp' (by norm_num)
+    linarith [e0.2]
+  set Hv := hysteresis.val with hHv
+  set Wv := semitoneWidth.val with hWv
+  -- lo
+  have b1 : |S - Hv| < 16 := by rw [abs_lt]; constructor <;> linarith [eh.1, eh.2]
+  obtain ⟨l1, l2⟩ := val_sub s1 hf (by rw [s2]; exact le_trans (le_of_lt b1) (by norm_num))
+  rw [s2] at l2
+  have el := abs_le.mp (err16 b1)
+  norm_num at el
+  -- hi
+  have b2 : |S + Wv| < 16 := by rw [abs_lt]; constructor <;> linarith [ew.1, ew.2]
+  obtain ⟨a1, a2⟩ := val_add s1 wf (by rw [s2]; exact le_trans (le_of_lt b2) (by norm_num))
+  rw [s2] at a2
+  have ea := abs_le.mp (err16 b2)
+  norm_num at ea
+  have b3 : |rnd (S + Wv) + Hv| < 16 := by
+    rw [abs_lt]; constructor <;> linarith [ea.1, ea.2, ew.1, ew.2, eh.1, eh.2]
+  obtain ⟨c1, c2⟩ := val_add a1 hf (by rw [a2]; exact le_trans (le_of_lt b3) (by norm_num))
+  rw [a2] at c2
+  have ec := abs_le.mp (err16 b3)
+  norm_num at ec
+  refine ⟨l1, c1, ?_, ?_⟩
+  · rw [l2, abs_le]; norm_num
+    constructor <;> linarith [el.1, el.2, e0.1, e0.2, eh.1, eh.2]
+  · rw [c2, abs_le]; norm_num
+    constructor <;> linarith [ec.1, ec.2, ea.1, ea.2, e0.1, e0.2, eh.1, eh.2, ew.1, ew.2]
+
+/-! ### non-decreasing inputs give non-decreasing notes -/
+
+/-- convert a list of inputs, collecting the reported notes -/
+def notes (q : Quantizer) : List F32 → List Nat
+  | [] => []
+  | v :: vs => (q.convert v).2.note :: notes (q.convert v).1 vs
+
+/-- a non-decreasing list of finite voltages in [b, 10] -/
+def Ramp (b : ℚ) : List F32 → Prop
+  | [] => True
+  | .fin x _ :: vs => b ≤ x ∧ x ≤ 10 ∧ Ramp x vs
+  | _ :: _ => False
+
+/-- every cached note is at most the history-free note of any input from `b` upwards -/
+def Below (q : Quantizer) (b : ℚ) : Prop :=
+  ∀ (x : ℚ) (s : Bool), b ≤ x → x ≤ 10 → q.cached.note ≤ (convertFresh q.allowed (.fin x s)).note
+
+theorem ramp_monotone_from (q : Quantizer) (b : ℚ) (hb : 0 ≤ b) (ha : ∃ n, n < 12 ∧ bit q.allowed n = true)
+    (hq : Below q b) (vs : List F32) (hr : Ramp b vs) :
+    List.Pairwise (· ≤ ·) (q.cached.note :: notes q vs) := by
+  induction vs generalizing q b with
+  | nil => simp [notes]
+  | cons v vs ih =>
+    cases v with
+    | nan => exact absurd hr (by simp [Ramp])
+    | inf s => exact absurd hr (by simp [Ramp])
+    | fin x s =>
+      obtain ⟨hbx, hx10, hrest⟩ := hr
+      obtain ⟨ck, cf, cc, cal⟩ := convert_cases q (.fin x s)
+      -- the reported note is at least the cached one
+      have hge : q.cached.note ≤ (q.convert (.fin x s)).2.note := by
+        by_cases hk : keeps q (.fin x s) = true
+        · rw [(ck hk).2]
+        · have hk' : keeps q (.fin x s) = false := by simpa using hk
+          rw [cf hk']; exact hq x s hbx hx10
+      -- the new cache is again below every later history-free note
+      have hbelow : Below (q.convert (.fin x s)).1 x := by
+        intro x' s' hxx hx'10
+        rw [cc, cal]
+        by_cases hk : keeps q (.fin x s) = true
+        · rw [(ck hk).2]; exact hq x' s' (by linarith) hx'10
+        · have hk' : keeps q (.fin x s) = false := by simpa using hk
+          rw [cf hk']
+          exact C08.convertFresh_monotone q.allowed ha x x' s s' (by linarith) hxx hx'10
+      have ih' := ih (q.convert (.fin x s)).1 x (by linarith) (by rw [cal]; exact ha) hbelow hrest
+      rw [cc] at ih'
+      simp only [notes]
+      rw [List.pairwise_cons]
+      refine ⟨?_, ih'⟩
+      intro n hn
+      have : (q.convert (.fin x s)).2.note ≤ n := by
+        rcases List.mem_cons.mp hn with rfl | hn'
+        · exact Nat.le_refl _
+        · exact (List.pairwise_cons.mp ih').1 n hn'
+      omega
+
+/-- **C09, ramps**: from a quantizer without history, on any scale with an allowed note, a non-decreasing sequence
+of inputs in [0, 10] V gives a non-decreasing sequence of notes -/
+theorem ramp_monotone (allowed : Nat) (ha : ∃ n, n < 12 ∧ bit allowed n = true) (vs : List F32) (hr : Ramp 0 vs) :
+    List.Pairwise (· ≤ ·) (notes { Quantizer.new with allowed := allowed } vs) := by
+  have := ramp_monotone_from { Quantizer.new with allowed := allowed } 0 (le_refl _) ha
+    (by intro x s _ _; simp [Quantizer.new]) vs hr
+  exact (List.pairwise_cons.mp this).2
+
+/-- non-vacuity: a slow ramp across a boundary with hysteresis, chromatic scale -/
+example : notes Quantizer.new [ofBits 0x3da8f5c3, ofBits 0x3db851ec, ofBits 0x3dbc6a7f, ofBits 0x3dcccccd] = [0, 0, 1, 1] := by
+  decide +kernel
+
 end C09
